@@ -328,7 +328,21 @@ def region_mixed_compute_dead_sinks(case):
     return False
 
 
+def region_strided_slice_of_optimized_moment(case):
+    """A stepped slice of the collection x.optimize() returns for a mean/var/std over a computed (fusable)
+    input: the optimised root is the lowered reduction, and the slice is pushed into blocks that are still
+    the chunk step's dicts."""
+    prog = case["program"]
+    L = len(prog["leaves"])
+    o = prog["outputs"][0]
+    if case.get("entry") != "x.optimize" or case.get("follow") != "slice" or o < L:
+        return False
+    s = prog["stmts"][o - L]
+    return s["op"] in ("mean", "var", "std") and s["args"][0] >= L
+
+
 KNOWN_REGIONS = {
+    "KF-strided-slice-of-optimized-moment": region_strided_slice_of_optimized_moment,
     "KF-dask-optimize-tree-reduction": region_dask_optimize_tree_reduction,
     "KF-generic-optimizer-window-reduction": region_generic_optimizer_window_reduction,
     "KF-mixed-compute-dead-sinks": region_mixed_compute_dead_sinks,
